@@ -2071,6 +2071,22 @@ func f19siblings(e *Env) error {
 		copy(b, spareS)
 		return map[string]any{"xs": a, "ss": b, "is": []int{5, 6, 7}, "m": map[string]interface{}{"x": 1, "y": 2}}
 	}
+	// two results of the SAME filter on different inputs, both kept: the second call must not reach into the first result
+	for _, f := range []string{"keys", "sort", "reverse", "slice(0, 2)", "merge(['t'])", "split(',')", "first", "last", "join(',')|split(',')", "keys|sort", "keys|reverse", "column('k')", "batch(2)", "map(v => v)", "filter(v => v)"} {
+		for _, in := range [][2]string{{"{'x': 1, 'y': 2, 'z': 3}", "{'p': 1, 'q': 2, 'z': 3}"}, {"['c', 'a', 'b']", "['f', 'e', 'd', 'g']"}, {"'x,y,z'", "'p,q,z,w'"}, {"m", "{'u': 1, 'v': 2}"}, {"xs", "ss"}} {
+			both := "{% set a = " + in[0] + "|" + f + " %}{% set b = " + in[1] + "|" + f + " %}{% set c = " + in[0] + "|" + f + " %}{{ a|json_encode|raw }}\x1e{{ b|json_encode|raw }}\x1e{{ c|json_encode|raw }}\x1e{{ a|json_encode|raw }}"
+			sep := "{{ (" + in[0] + "|" + f + ")|json_encode|raw }}\x1e{{ (" + in[1] + "|" + f + ")|json_encode|raw }}\x1e{{ (" + in[0] + "|" + f + ")|json_encode|raw }}\x1e{{ (" + in[0] + "|" + f + ")|json_encode|raw }}"
+			x, y := renderSrc(both, mkctx()), renderSrc(sep, mkctx())
+			r.Seen("kept:"+f+"|"+in[0], x.Class == "")
+			r.Hit("kept-results")
+			if x.Class != y.Class || x.Out != y.Out {
+				if r.Violate(Violation{Key: "sibling-results-influence-each-other", What: fmt.Sprintf("a = %s|%s kept while b = %s|%s is computed: %q (%s), each computed alone %q (%s)", in[0], f, in[1], f, x.Out, x.Class, y.Out, y.Class),
+					Broken: "C19 filter semantics are functions of their input (implementation-only metamorphic oracle)", Replay: map[string]any{"kind": "src", "src": both, "separately": sep, "got": x.Out, "want": y.Out}}) {
+					return nil
+				}
+			}
+		}
+	}
 	bases := []string{"[1, 2, 3]|merge([4])", "[1, 2, 3, 4, 5]|slice(0, 3)", "range(1, 4)", "'a,b,c'|split(',')", "[3, 1, 2]|sort", "{'x': 1, 'y': 2}|keys", "[1, 2, 3]|reverse",
 		"xs", "xs|slice(0, 2)", "ss", "ss|merge(['t'])", "is", "is|slice(1, 2)", "m|keys", "xs|merge(ss)", "[1, 2]|merge([3])|merge([4])|slice(0, 3)"}
 	ops := []string{"merge(['L'])", "merge(['R'])", "merge([9, 9, 9, 9, 9])", "reverse", "sort", "slice(0, 2)|merge(['S'])", "merge([1])|merge([2])", "slice(1)"}
